@@ -1,4 +1,1145 @@
-//! harness family c09 (stub until the family is built)
+//! harness family c09 (property C09: image encode/decode is stable and self-identifying)
+//!
+//! Case streams (`idx` ranges; every case forks its own PRNG stream from the seed):
+//!   A  0..      one image per (format, disk kind) configuration as `mkdsk::mkimage` builds it, random sector /
+//!               block writes, random accepted metadata edits; direct oracle for the whole property; model ties
+//!   B  10000..  pure codec ties: crc32 / crc16 / TD0 sector records / IMD track buffers / chunk walks
+//!   C  20000..  images a2kit *loads* (foreign but valid byte streams built here), same oracle as A
+//!   D  30000..  replay of the candidate defect DESIGN §9 item 27 (WOZ2 with non-creator chunk order)
 use crate::util::*;
+use a2kit::fs::Block;
+use a2kit::img::{self, names, DiskImage, DiskKind};
 
-pub fn run(_ctx: &mut Ctx) {}
+// ------------------------------------------------------------------------------------------------
+// reference implementations (independent of a2kit and of the Lean model)
+
+fn crc32_ref(buf: &[u8]) -> u32 {
+    let mut crc: u32 = 0xffff_ffff;
+    for b in buf {
+        crc ^= *b as u32;
+        for _ in 0..8 {
+            crc = if crc & 1 == 1 { (crc >> 1) ^ 0xedb8_8320 } else { crc >> 1 };
+        }
+    }
+    !crc
+}
+
+fn crc16_ref(buf: &[u8]) -> u16 {
+    let mut crc: u16 = 0;
+    for b in buf {
+        crc ^= (*b as u16) << 8;
+        for _ in 0..8 {
+            crc = if crc & 0x8000 != 0 { (crc << 1) ^ 0xa097 } else { crc << 1 };
+        }
+    }
+    crc
+}
+
+/// panic site relative to the source tree (independent of where the tree is checked out)
+fn site(p: &str) -> String {
+    let s = p.split(" [").next().unwrap_or(p);
+    match s.find("src/") { Some(i) => s[i..].to_string(), None => s.to_string() }
+}
+
+fn le16(b: &[u8]) -> usize { b[0] as usize + 256 * b[1] as usize }
+fn le32(b: &[u8]) -> usize { b[0] as usize + 256 * b[1] as usize + 65536 * b[2] as usize + 16777216 * b[3] as usize }
+fn uniform(b: &[u8]) -> bool { b.iter().all(|x| *x == b[0]) }
+
+// ------------------------------------------------------------------------------------------------
+// configurations: every (image type, disk kind) pair accepted by commands/mkdsk.rs `mkimage`
+
+#[derive(Clone)]
+struct Cfg { typ: &'static str, kind_name: &'static str, kind: DiskKind, wrap: Option<&'static str> }
+
+fn cpm_kinds() -> Vec<(&'static str, DiskKind)> {
+    vec![("IBM_CPM1", names::IBM_CPM1_KIND), ("OSBORNE1_SD", names::OSBORNE1_SD_KIND), ("OSBORNE1_DD", names::OSBORNE1_DD_KIND),
+         ("KAYPROII", names::KAYPROII_KIND), ("KAYPRO4", names::KAYPRO4_KIND), ("TRS80_M2_CPM", names::TRS80_M2_CPM_KIND),
+         ("NABU_CPM", names::NABU_CPM_KIND), ("AMSTRAD_SS", names::AMSTRAD_SS_KIND)]
+}
+fn ibm_kinds() -> Vec<(&'static str, DiskKind)> {
+    vec![("IBM_SSDD_8", DiskKind::D525(names::IBM_SSDD_8)), ("IBM_SSDD_9", DiskKind::D525(names::IBM_SSDD_9)),
+         ("IBM_DSDD_8", DiskKind::D525(names::IBM_DSDD_8)), ("IBM_DSDD_9", DiskKind::D525(names::IBM_DSDD_9)),
+         ("IBM_SSQD", DiskKind::D525(names::IBM_SSQD)), ("IBM_DSQD", DiskKind::D525(names::IBM_DSQD)),
+         ("IBM_DSHD", DiskKind::D525(names::IBM_DSHD)), ("IBM_720", DiskKind::D35(names::IBM_720)),
+         ("IBM_1440", DiskKind::D35(names::IBM_1440)), ("IBM_2880", DiskKind::D35(names::IBM_2880))]
+}
+
+fn configs() -> Vec<Cfg> {
+    let mut v = Vec::new();
+    let mut add = |typ: &'static str, kind_name: &'static str, kind: DiskKind, wrap: Option<&'static str>| v.push(Cfg { typ, kind_name, kind, wrap });
+    add("d13", "A2_DOS32", names::A2_DOS32_KIND, None);
+    add("do", "A2_DOS33", names::A2_DOS33_KIND, None);
+    add("po", "A2_DOS33", names::A2_DOS33_KIND, None);
+    add("po", "A2_400", names::A2_400_KIND, None);
+    add("po", "A2_800", names::A2_800_KIND, None);
+    add("po", "A2_HD_MAX", names::A2_HD_MAX, None);
+    add("woz1", "A2_DOS32", names::A2_DOS32_KIND, None);
+    add("woz1", "A2_DOS33", names::A2_DOS33_KIND, None);
+    add("woz2", "A2_DOS32", names::A2_DOS32_KIND, None);
+    add("woz2", "A2_DOS33", names::A2_DOS33_KIND, None);
+    add("woz2", "A2_400", names::A2_400_KIND, None);
+    add("woz2", "A2_800", names::A2_800_KIND, None);
+    add("2mg", "A2_DOS33", names::A2_DOS33_KIND, Some("do"));
+    add("2mg", "A2_DOS33", names::A2_DOS33_KIND, Some("nib"));
+    add("2mg", "A2_400", names::A2_400_KIND, Some("po"));
+    add("2mg", "A2_800", names::A2_800_KIND, Some("po"));
+    add("2mg", "A2_HD_MAX", names::A2_HD_MAX, Some("po"));
+    add("nib", "A2_DOS32", names::A2_DOS32_KIND, None);
+    add("nib", "A2_DOS33", names::A2_DOS33_KIND, None);
+    for (n, k) in cpm_kinds() { add("imd", n, k, None); }
+    for (n, k) in ibm_kinds() { add("imd", n, k, None); }
+    for (n, k) in cpm_kinds() { add("td0", n, k, None); }
+    for (n, k) in ibm_kinds() { add("td0", n, k, None); }
+    for (n, k) in ibm_kinds() { add("img", n, k, None); }
+    v
+}
+
+fn build(cfg: &Cfg, vol: u8) -> Result<Box<dyn DiskImage>, String> {
+    let k = cfg.kind;
+    Ok(match cfg.typ {
+        "d13" => Box::new(img::dsk_d13::D13::create(35)),
+        "do" => Box::new(img::dsk_do::DO::create(35, 16)),
+        "po" => Box::new(img::dsk_po::PO::create(match cfg.kind_name { "A2_DOS33" => 280, "A2_400" => 800, "A2_800" => 1600, _ => 65535 })),
+        "woz1" => Box::new(img::woz1::Woz1::create(vol, k)),
+        "woz2" => Box::new(img::woz2::Woz2::create(vol, k)),
+        "2mg" => { let w = cfg.wrap.map(|s| s.to_string()); match img::dot2mg::Dot2mg::create(vol, k, w.as_ref()) { Ok(i) => i, Err(e) => return Err(e.to_string()) } },
+        "nib" => Box::new(img::nib::Nib::create(vol, k)),
+        "imd" => Box::new(img::imd::Imd::create(k)),
+        "td0" => Box::new(img::td0::Td0::create(k)),
+        "img" => Box::new(img::dsk_img::Img::create(k)),
+        _ => return Err("unknown type".into())
+    })
+}
+
+/// extension hint used when the bytes are parsed back
+fn ext_of(typ: &str) -> &'static str {
+    match typ { "d13" => "d13", "do" => "do", "po" => "po", "woz1" | "woz2" => "woz", "2mg" => "2mg", "nib" => "nib", "imd" => "imd", "td0" => "td0", _ => "img" }
+}
+/// formats whose byte stream identifies itself without an extension hint (signature or a size no other
+/// format accepts earlier in `create_img_from_bytestream`); DO / PO / IMG are headerless sector dumps whose
+/// type cannot be decided from the bytes of an unformatted disk
+fn self_identifying(typ: &str) -> bool { matches!(typ, "d13" | "woz1" | "woz2" | "2mg" | "nib" | "imd" | "td0") }
+/// formats that record enough to recover the disk kind a2kit created them with (see design/C09.md)
+fn records_kind(cfg: &Cfg) -> bool {
+    match cfg.typ {
+        "d13" | "do" | "woz1" | "woz2" | "nib" => true,
+        "po" => true, // block count determines the kind PO::create chose
+        "2mg" => false, // kind of the wrapped raw image is reported after reload
+        // IMD has no drive-type field: 3 inch Amstrad and 5.25 inch IBM SSDD9 are the same bytes
+        "imd" => cfg.kind_name != "AMSTRAD_SS",
+        "td0" => true, // drive type, sides and per-track cylinder/head are all recorded
+        // a raw sector dump records only its size: 80x1x8 (SSQD) and 40x2x8 (DSDD8) are both 327680 bytes
+        "img" => cfg.kind_name != "IBM_SSQD",
+        _ => false
+    }
+}
+
+// ------------------------------------------------------------------------------------------------
+// observing an image through the public DiskImage interface
+
+#[derive(Clone, PartialEq)]
+struct Obs {
+    typ: String, kind: String, cap: usize, tracks: usize, heads: usize, meta: String, geometry: String,
+    /// (address, content hash or error text)
+    sectors: Vec<(String, String)>,
+}
+
+#[derive(Clone)]
+struct TrackGeo { cyl: usize, head: usize, secs: Vec<(usize, usize)> }
+
+fn geometry(img: &mut Box<dyn DiskImage>) -> (String, Vec<TrackGeo>) {
+    let mut s = match img.export_geometry(None) { Ok(s) => s, Err(e) => format!("ERR {}", e) };
+    let mut v = Vec::new();
+    if let Ok(mut j) = json::parse(&s) {
+        // the "package" member is a function of the disk kind, which has its own comparison
+        j.remove("package");
+        s = json::stringify(j.clone());
+        for t in j["tracks"].members() {
+            if t.is_null() { continue; }
+            let mut secs = Vec::new();
+            for c in t["chs_map"].members() { secs.push((c[2].as_usize().unwrap_or(0), c[3].as_usize().unwrap_or(0))); }
+            v.push(TrackGeo { cyl: t["cylinder"].as_usize().unwrap_or(0), head: t["head"].as_usize().unwrap_or(0), secs });
+        }
+    }
+    (s, v)
+}
+
+fn res_hash(r: Result<Vec<u8>, Box<dyn std::error::Error>>) -> String {
+    match r { Ok(d) => format!("{}:{:016x}", d.len(), fnv(&d)), Err(e) => format!("ERR {}", e) }
+}
+
+fn dump_sectors(img: &mut Box<dyn DiskImage>, geo: &[TrackGeo]) -> Vec<(String, String)> {
+    let mut out = Vec::new();
+    let typ = img.what_am_i().to_string();
+    let blocky = typ == "po" || (typ == "2mg" && geo.is_empty());
+    if blocky {
+        for b in 0..img.byte_capacity() / 512 { out.push((format!("B{}", b), res_hash(img.read_block(Block::PO(b))))); }
+    } else if typ == "img" {
+        let heads = img.num_heads();
+        let nsec = if geo.is_empty() { 0 } else { geo[0].secs.len() };
+        for t in 0..img.track_count() {
+            for s in 1..=nsec { out.push((format!("{}/{}/{}", t / heads, t % heads, s), res_hash(img.read_sector(t / heads, t % heads, s)))); }
+        }
+    } else {
+        for t in geo {
+            for (s, _) in &t.secs { out.push((format!("{}/{}/{}", t.cyl, t.head, s), res_hash(img.read_sector(t.cyl, t.head, *s)))); }
+        }
+    }
+    out
+}
+
+fn observe(img: &mut Box<dyn DiskImage>) -> (Obs, Vec<TrackGeo>) {
+    let (g, geo) = geometry(img);
+    let sectors = dump_sectors(img, &geo);
+    (Obs { typ: img.what_am_i().to_string(), kind: img.kind().to_string(), cap: img.byte_capacity(), tracks: img.track_count(),
+           heads: img.num_heads(), meta: img.get_metadata(None), geometry: g, sectors }, geo)
+}
+
+// ------------------------------------------------------------------------------------------------
+// random writes
+
+fn payload(rng: &mut Rng, size: usize) -> Vec<u8> {
+    match rng.below(6) {
+        0 => vec![rng.byte(); size],                   // uniform: the compressible case of IMD / TD0
+        1 => vec![0; size],
+        2 => { let mut v = vec![rng.byte(); size]; let i = rng.below(size); v[i] ^= 1 + rng.byte() % 255; v } // almost uniform
+        3 => { let n_ = rng.range(1, size); rng.bytes(n_) },             // short: padded with zeros by quantize_block
+        _ => rng.bytes(size),
+    }
+}
+
+/// returns a description of the writes; a refused write is not a C09 matter (C08 owns addressing)
+fn random_writes(img: &mut Box<dyn DiskImage>, cfg_typ: &str, geo: &[TrackGeo], rng: &mut Rng, n: usize, out: &mut Out) -> String {
+    let mut desc = String::new();
+    let typ = img.what_am_i().to_string();
+    for _ in 0..n {
+        let blocky = typ == "po" || (typ == "2mg" && geo.is_empty());
+        let r: Result<(), String>;
+        let what: String;
+        if blocky {
+            let nb = img.byte_capacity() / 512;
+            let b = if rng.chance(20) { *rng.pick(&[0, 1, 2, nb - 1]) } else { rng.below(nb) };
+            let d = payload(rng, 512);
+            what = format!("PO{}:{}", b, d.len());
+            r = guarded(|| img.write_block(Block::PO(b), &d).map_err(|e| e.to_string())).unwrap_or_else(|p| Err(format!("PANIC {}", p)));
+        } else if typ == "img" {
+            let heads = img.num_heads();
+            let t = rng.below(img.track_count());
+            let nsec = geo[0].secs.len();
+            let size = geo[0].secs[0].1;
+            let s = rng.range(1, nsec);
+            let d = payload(rng, size);
+            what = format!("S{}/{}/{}:{}", t / heads, t % heads, s, d.len());
+            r = guarded(|| img.write_sector(t / heads, t % heads, s, &d).map_err(|e| e.to_string())).unwrap_or_else(|p| Err(format!("PANIC {}", p)));
+        } else {
+            let t = rng.pick(geo).clone();
+            if t.secs.is_empty() { continue; }
+            let (s, size) = *rng.pick(&t.secs);
+            let size = if size == 524 { 512 } else { size };
+            let d = payload(rng, size);
+            // a block write now and then where the format has an obvious block view
+            if rng.chance(25) && (typ == "do" || typ == "d13" || ((typ == "woz1" || typ == "woz2" || typ == "nib" || typ == "2mg") && size == 256)) {
+                let addr = if t.secs.len() == 13 { Block::D13([t.cyl, s]) } else { Block::DO([t.cyl, s % 16]) };
+                what = format!("{}:{}", addr, d.len());
+                r = guarded(|| img.write_block(addr, &d).map_err(|e| e.to_string())).unwrap_or_else(|p| Err(format!("PANIC {}", p)));
+            } else {
+                what = format!("S{}/{}/{}:{}", t.cyl, t.head, s, d.len());
+                r = guarded(|| img.write_sector(t.cyl, t.head, s, &d).map_err(|e| e.to_string())).unwrap_or_else(|p| Err(format!("PANIC {}", p)));
+            }
+        }
+        match r {
+            Ok(()) => { out.count(&format!("write-ok:{}", cfg_typ)); desc += &format!("{} ", what); }
+            Err(e) => { out.count(&format!("write-refused:{}", cfg_typ)); desc += &format!("{}=>{} ", what, e); }
+        }
+    }
+    desc
+}
+
+// ------------------------------------------------------------------------------------------------
+// metadata edits
+
+const LOREM: [&str; 12] = ["a2kit", "Disk 1, Side A", "ünïcödé", "日本語", "x", "", "The quick brown fox", "  padded  ", "tab-free", "1980", "Brøderbund", "<&\"'>"];
+
+fn leaves(meta: &str) -> Vec<(Vec<String>, String)> {
+    let mut v = Vec::new();
+    if let Ok(j) = json::parse(meta) {
+        let mut curs = a2kit::JsonCursor::new();
+        while let Some((_k, leaf)) = curs.next(&j) {
+            if let Some(s) = leaf.as_str() { v.push((curs.key_path(), s.to_string())); }
+        }
+    }
+    v
+}
+
+fn random_hex(rng: &mut Rng, nbytes: usize) -> String { hex::encode(rng.bytes(nbytes)) }
+
+/// keys that the source documents as read-only (accepted with a warning, value unchanged)
+fn is_ro(path: &[String]) -> bool {
+    let p: Vec<&str> = path.iter().map(|s| s.as_str()).filter(|s| *s != "_raw").collect();
+    match p.as_slice() {
+        ["imd", "header"] => true,
+        ["td0", "comment", "timestamp"] => true,
+        ["woz1", "info", "disk_type"] => true,
+        ["woz2", "info", k] => ["disk_type", "disk_sides", "largest_track", "flux_block", "largest_flux_block"].contains(k),
+        ["2mg", "header", k] => ["header_len", "version", "img_fmt", "data_offset", "data_len", "comment_offset", "comment_len", "creator_offset", "creator_len"].contains(k),
+        _ => false
+    }
+}
+
+/// candidate (path, value, class) for one edit.  `class` names the input class for the distribution and
+/// for the signatures of the hazards that the generator exercises on purpose.
+fn candidate(typ: &str, lv: &[(Vec<String>, String)], rng: &mut Rng) -> (Vec<String>, String, &'static str) {
+    let p = |v: &[&str]| v.iter().map(|s| s.to_string()).collect::<Vec<String>>();
+    let text = |rng: &mut Rng| -> String {
+        let mut s = rng.pick(&LOREM[..]).to_string();
+        if rng.chance(30) { s += " "; s += *rng.pick(&LOREM[..]); }
+        s
+    };
+    // format specific free-text / special keys
+    if rng.chance(55) {
+        match typ {
+            "imd" => {
+                return match rng.below(10) {
+                    0 => (p(&["imd", "comment"]), format!("{}\u{1a}{}", text(rng), text(rng)), "imd-comment-with-eof-char"),
+                    1 => (p(&["imd", "comment"]), format!("{}\r\n{}", text(rng), text(rng)), "text-multiline"),
+                    _ => (p(&["imd", "comment"]), text(rng), "text"),
+                };
+            }
+            "td0" => {
+                return match rng.below(10) {
+                    0 => (p(&["td0", "comment", "notes"]), format!("{}\n{}", text(rng), text(rng)), "td0-notes-with-newline"),
+                    1 => (p(&["td0", "header", "stepping", "_raw"]), format!("{:02x}", rng.below(3)), "td0-stepping-without-comment-flag"),
+                    2 => (p(&["td0", "header", "stepping", "_raw"]), format!("{:02x}", 0x80 + rng.below(3)), "td0-stepping"),
+                    _ => (p(&["td0", "comment", "notes"]), text(rng), "text"),
+                };
+            }
+            "woz2" => {
+                let std = ["title", "subtitle", "publisher", "developer", "copyright", "version", "notes", "side_name", "contributor", "image_date"];
+                return match rng.below(12) {
+                    0 => (p(&["woz2", "meta", "language"]), rng.pick(&["English", "French|German", "Klingon", "Other"]).to_string(), "woz2-meta-constrained"),
+                    1 => (p(&["woz2", "meta", "requires_ram"]), rng.pick(&["48K", "1.5M+", "47K", "Unknown"]).to_string(), "woz2-meta-constrained"),
+                    2 => (p(&["woz2", "meta", "requires_machine"]), rng.pick(&["2e|2c", "2+", "4", "2gs|3+"]).to_string(), "woz2-meta-constrained"),
+                    3 => (p(&["woz2", "meta", "side"]), rng.pick(&["Disk 1, Side A", "Disk 12, Side B", "Side C"]).to_string(), "woz2-meta-constrained"),
+                    4 => (p(&["woz2", "meta", &format!("custom{}", rng.below(3))]), text(rng), "woz2-meta-custom-key"),
+                    5 => (p(&["woz2", "meta", *rng.pick(&std[..])]), format!("{}\r", text(rng)), "woz2-meta-value-ending-in-cr"),
+                    6 => (p(&["woz2", "meta", *rng.pick(&std[..])]), format!("{}\t{}", text(rng), text(rng)), "woz2-meta-illegal-tab"),
+                    7 => (p(&["woz2", "meta", *rng.pick(&std[..])]), String::new(), "woz2-meta-delete"),
+                    _ => (p(&["woz2", "meta", *rng.pick(&std[..])]), text(rng), "text"),
+                };
+            }
+            "2mg" => {
+                return match rng.below(10) {
+                    0 => (p(&["2mg", "header", "blocks"]), random_hex(rng, 4), "2mg-blocks-edit"),
+                    1 | 2 | 3 => (p(&["2mg", "creator_info"]), text(rng), "text"),
+                    _ => (p(&["2mg", "comment"]), text(rng), "text"),
+                };
+            }
+            _ => {}
+        }
+    }
+    // generic: re-put a leaf of the current metadata with a new value of the same shape
+    let cand: Vec<&(Vec<String>, String)> = lv.iter().filter(|(k, _)| k.last().map(|s| s != "_pretty").unwrap_or(false)).collect();
+    if cand.is_empty() { return (p(&[typ, "nothing"]), "00".to_string(), "no-leaf"); }
+    let (k, old) = (*rng.pick(&cand)).clone();
+    let is_hex = !old.is_empty() && old.len() % 2 == 0 && old.chars().all(|c| c.is_ascii_hexdigit());
+    if is_hex {
+        let n = old.len() / 2;
+        let v = match rng.below(4) {
+            0 => format!("{:02x}", rng.below(4)).repeat(1) + &"00".repeat(n - 1),
+            1 => random_hex(rng, n),
+            2 => old.clone(),
+            _ => { let mut b = hex::decode(&old).unwrap(); let i = rng.below(n); b[i] = b[i].wrapping_add(1); hex::encode(b) }
+        };
+        // the two hex fields whose every value changes how the image loads get their own class
+        let last2: Vec<&str> = k.iter().map(|s| s.as_str()).filter(|s| *s != "_raw").collect();
+        // `sides` decides the number of heads on reload ("1 => 1, not 1 => 2"): keep the class of the value
+        let v = match last2.as_slice() {
+            ["td0", "header", "sides"] => if old == "01" { old.clone() } else if v == "01" { "02".to_string() } else { v },
+            _ => v
+        };
+        let class = match last2.as_slice() {
+            ["2mg", "header", "blocks"] => "2mg-blocks-edit",
+            ["td0", "header", "stepping"] => if u8::from_str_radix(&v, 16).unwrap_or(0) & 0x80 == 0 { "td0-stepping-without-comment-flag" } else { "td0-stepping" },
+            _ => "hex"
+        };
+        (k, v, class)
+    } else {
+        (k, text(rng), "text")
+    }
+}
+
+/// what `get_metadata` is expected to show for a value that was accepted
+fn normal(path: &[String], v: &str) -> String {
+    match path.last().map(|s| s.as_str()) {
+        Some("creator") if path.len() == 3 && path[1] == "info" => v.trim_end().to_string(), // 32 bytes, space padded by the WOZ spec
+        _ => v.to_string()
+    }
+}
+
+fn lookup(meta: &str, path: &[String]) -> Option<String> {
+    let j = json::parse(meta).ok()?;
+    let mut cur = &j;
+    for k in path { if !cur.has_key(k) { return None; } cur = &cur[k.as_str()]; }
+    if cur.is_object() && cur.has_key("_raw") { cur = &cur["_raw"]; }
+    cur.as_str().map(|s| s.to_string())
+}
+
+struct EditLog { desc: String, classes: Vec<&'static str> }
+
+fn random_edits(img: &mut Box<dyn DiskImage>, cfg: &Cfg, rng: &mut Rng, n: usize, out: &mut Out, tag: &str, idx: usize) -> EditLog {
+    let mut log = EditLog { desc: String::new(), classes: Vec::new() };
+    let typ = img.what_am_i().to_string();
+    for _ in 0..n {
+        let before = img.get_metadata(None);
+        let lv = leaves(&before);
+        let (path, val, class) = candidate(&typ, &lv, rng);
+        if class == "no-leaf" { continue; }
+        let jv = json::JsonValue::String(val.clone());
+        let r = guarded(|| img.put_metadata(&path, &jv).map_err(|e| e.to_string()));
+        let pstr = path.join("/");
+        match r {
+            Err(p) => {
+                out.oracle(false, "put_metadata-no-panic", &format!("c09/{}/put_metadata/panic:{}", cfg.typ, site(&p)), &format!("{} idx={} key=/{} val={:?} panic={}", tag, idx, pstr, val, p));
+                log.desc += &format!("/{}={:?}=>PANIC ", pstr, val);
+            }
+            Ok(Err(e)) => { out.count(&format!("meta-refused:{}", class)); log.desc += &format!("/{}={:?}=>refused({}) ", pstr, val, e); }
+            Ok(Ok(())) => {
+                out.count(&format!("meta-accepted:{}", class));
+                log.classes.push(class);
+                log.desc += &format!("/{}={:?} ", pstr, val);
+                // written is what is read back (immediately)
+                let after = img.get_metadata(None);
+                let got = lookup(&after, &path);
+                let old = lookup(&before, &path);
+                let deleted = class == "woz2-meta-delete";
+                let ok = if deleted { got.is_none() || got.as_deref() == Some("") }
+                    else if got.as_deref() == Some(normal(&path, &val).as_str()) { true }
+                    else if is_ro(&path) && got == old { out.count("meta-read-only-skipped"); true }
+                    else { false };
+                out.oracle(ok, "metadata-put-then-get", &format!("c09/{}/meta/put-get-differs:{}", cfg.typ, path.iter().filter(|s| *s != "_raw").skip(1).take(2).cloned().collect::<Vec<_>>().join(".")),
+                           &format!("{} idx={} key=/{} put={:?} got={:?} old={:?}", tag, idx, pstr, val, got, old));
+            }
+        }
+    }
+    log
+}
+
+// ------------------------------------------------------------------------------------------------
+// integrity fields of the serialised bytes, checked against the reference implementations
+
+/// parsed normal-layer TD0 (reference parser, a2kit-produced streams only use Raw/Repeated)
+struct TdSec { hdr: [u8; 6], data: Vec<u8> }
+struct TdTrk { hdr: [u8; 4], secs: Vec<TdSec> }
+struct TdImg { hdr: Vec<u8>, comment: Option<(Vec<u8>, Vec<u8>)>, tracks: Vec<TdTrk>, tail: Vec<u8> }
+
+fn td_unpack_ref(shift: u8, data: &[u8]) -> Option<Vec<u8>> {
+    let size = 128usize << shift;
+    if data.len() < 3 { return None; }
+    let body = &data[3..];
+    let mut ans = Vec::new();
+    match data[2] {
+        0 => { if body.len() < size { return None; } ans.extend_from_slice(&body[..size]); }
+        1 => { let mut p = 0; while ans.len() < size { if p + 4 > body.len() { return None; } let c = le16(&body[p..]); for _ in 0..c { ans.push(body[p + 2]); ans.push(body[p + 3]); } p += 4; } }
+        2 => { let mut p = 0; while ans.len() < size {
+                if p >= body.len() { return None; }
+                let rc = 2 * body[p] as usize; p += 1;
+                if p >= body.len() { return None; }
+                if rc == 0 { let n = body[p] as usize; p += 1; if p + n > body.len() { return None; } ans.extend_from_slice(&body[p..p + n]); p += n; }
+                else { let rep = body[p] as usize; p += 1; if p + rc > body.len() { return None; } for _ in 0..rep { ans.extend_from_slice(&body[p..p + rc]); } p += rc; }
+            } }
+        _ => return None
+    }
+    if ans.len() == size { Some(ans) } else { None }
+}
+
+fn td_parse(x: &[u8]) -> Result<TdImg, String> {
+    if x.len() < 12 { return Err("short".into()); }
+    let mut p = 12;
+    let mut comment = None;
+    if x[7] & 0x80 != 0 {
+        if x.len() < p + 10 { return Err("short comment header".into()); }
+        let len = le16(&x[p + 2..]);
+        if x.len() < p + 10 + len { return Err("short comment".into()); }
+        comment = Some((x[p..p + 10].to_vec(), x[p + 10..p + 10 + len].to_vec()));
+        p += 10 + len;
+    }
+    let mut tracks = Vec::new();
+    loop {
+        if p >= x.len() { return Err("no end mark".into()); }
+        if x[p] == 0xff { break; }
+        if p + 4 > x.len() { return Err("short track header".into()); }
+        let mut t = TdTrk { hdr: [x[p], x[p + 1], x[p + 2], x[p + 3]], secs: Vec::new() };
+        p += 4;
+        for _ in 0..t.hdr[0] {
+            if p + 6 > x.len() { return Err("short sector header".into()); }
+            let mut s = TdSec { hdr: [x[p], x[p + 1], x[p + 2], x[p + 3], x[p + 4], x[p + 5]], data: Vec::new() };
+            p += 6;
+            if s.hdr[4] & 0x30 == 0 {
+                if p + 2 > x.len() { return Err("short sector len".into()); }
+                let n = le16(&x[p..]);
+                if p + 2 + n > x.len() { return Err("short sector data".into()); }
+                s.data = x[p..p + 2 + n].to_vec();
+                p += 2 + n;
+            }
+            t.secs.push(s);
+        }
+        tracks.push(t);
+    }
+    Ok(TdImg { hdr: x[..12].to_vec(), comment, tracks, tail: x[p..].to_vec() })
+}
+
+fn integrity(typ: &str, b: &[u8]) -> Result<(), String> {
+    match typ {
+        "woz1" | "woz2" => {
+            if b.len() < 256 { return Err("short".into()); }
+            let want = if typ == "woz1" { b"WOZ1" } else { b"WOZ2" };
+            if &b[0..4] != want || b[4..8] != [0xff, 0x0a, 0x0d, 0x0a] { return Err("woz/bad-signature".into()); }
+            if le32(&b[8..12]) as u32 != crc32_ref(&b[12..]) { return Err("woz/crc32-wrong".into()); }
+            if &b[12..16] != b"INFO" || le32(&b[16..20]) != 60 { return Err("woz/info-chunk-misplaced".into()); }
+            if &b[80..84] != b"TMAP" || le32(&b[84..88]) != 160 { return Err("woz/tmap-chunk-misplaced".into()); }
+            if &b[248..252] != b"TRKS" { return Err("woz/trks-chunk-misplaced".into()); }
+            let tsize = le32(&b[252..256]);
+            if 256 + tsize > b.len() { return Err("woz/trks-size-past-eof".into()); }
+            if typ == "woz2" {
+                if tsize < 1280 || (tsize - 1280) % 512 != 0 { return Err("woz2/trks-size-not-blocks".into()); }
+                let mut maxblk = 0;
+                for t in 0..160 {
+                    let e = &b[256 + 8 * t..264 + 8 * t];
+                    let (start, cnt, bits) = (le16(&e[0..2]), le16(&e[2..4]), le32(&e[4..8]));
+                    if bits == 0 && start == 0 && cnt == 0 { continue; }
+                    if start < 3 || (start + cnt) * 512 > 256 + tsize { return Err("woz2/trk-blocks-outside-chunk".into()); }
+                    if bits > cnt * 512 * 8 { return Err("woz2/trk-bit-count-exceeds-blocks".into()); }
+                    maxblk = maxblk.max(cnt);
+                }
+                // INFO.largest_track (19 for 3.5 inch) is smaller than the 20-block track buffers a2kit allocates:
+                // not an integrity field of C09, recorded in design/C09.md as an observation only
+                let _ = maxblk;
+            } else if tsize % 6656 != 0 { return Err("woz1/trks-size-not-tracks".into()); }
+            // the remaining chunks must tile the file exactly
+            let mut p = 256 + tsize;
+            while p < b.len() {
+                if p + 8 > b.len() { return Err("woz/trailing-garbage".into()); }
+                p += 8 + le32(&b[p + 4..p + 8]);
+            }
+            if p != b.len() { return Err("woz/chunk-size-past-eof".into()); }
+            Ok(())
+        }
+        "td0" => {
+            if b.len() < 12 || &b[0..2] != b"td" { return Err("td0/not-advanced-signature".into()); }
+            if le16(&b[10..12]) as u16 != crc16_ref(&b[0..10]) { return Err("td0/header-crc-wrong".into()); }
+            let x = match retrocompressor::td0::expand_slice(b) { Ok(x) => x, Err(e) => return Err(format!("td0/expand-failed:{}", e)) };
+            // assumption spot check: the external compressor is a deterministic inverse pair
+            match retrocompressor::td0::compress_slice(&x) { Ok(c) => if c != b { return Err("td0/retrocompressor-compress-not-inverse".into()); }, Err(_) => return Err("td0/retrocompressor-compress-failed".into()) }
+            // retrocompressor swaps the signature (`TD` <-> `td`) and re-seals the header CRC
+            if x.len() < 12 || &x[0..2] != b"TD" || x[2..10] != b[2..10] { return Err("td0/expanded-header-differs".into()); }
+            if le16(&x[10..12]) as u16 != crc16_ref(&x[0..10]) { return Err("td0/normal-header-crc-wrong".into()); }
+            let t = td_parse(&x)?;
+            if let Some((h, text)) = &t.comment {
+                if le16(&h[0..2]) as u16 != crc16_ref(&[&h[2..], &text[..]].concat()) { return Err("td0/comment-crc-wrong".into()); }
+                if text.contains(&b'\n') { return Err("td0/comment-newline-not-encoded".into()); }
+            }
+            for trk in &t.tracks {
+                if trk.hdr[3] != (crc16_ref(&trk.hdr[0..3]) & 0xff) as u8 { return Err("td0/track-crc-wrong".into()); }
+                for s in &trk.secs {
+                    if s.hdr[4] & 0x30 != 0 { continue; }
+                    match td_unpack_ref(s.hdr[3], &s.data) {
+                        Some(d) => if s.hdr[5] != (crc16_ref(&d) & 0xff) as u8 { return Err("td0/sector-crc-wrong".into()); },
+                        None => return Err("td0/sector-record-undecodable".into())
+                    }
+                    if le16(&s.data[0..2]) + 2 != s.data.len() { return Err("td0/sector-length-word-wrong".into()); }
+                }
+            }
+            if t.tail.first() != Some(&0xff) { return Err("td0/no-end-mark".into()); }
+            Ok(())
+        }
+        "2mg" => {
+            if b.len() < 64 || &b[0..4] != b"2IMG" { return Err("2mg/bad-signature".into()); }
+            let (hl, fmt, blocks, doff, dlen, coff, clen, roff, rlen) = (le16(&b[8..10]), le32(&b[12..16]), le32(&b[20..24]), le32(&b[24..28]), le32(&b[28..32]), le32(&b[32..36]), le32(&b[36..40]), le32(&b[40..44]), le32(&b[44..48]));
+            if hl != 64 || doff != 64 { return Err("2mg/data-offset-wrong".into()); }
+            if 64 + dlen + clen + rlen != b.len() { return Err("2mg/lengths-do-not-tile-file".into()); }
+            if clen > 0 && coff != 64 + dlen { return Err("2mg/comment-offset-wrong".into()); }
+            if clen == 0 && coff != 0 { return Err("2mg/comment-offset-wrong".into()); }
+            if rlen > 0 && roff != 64 + dlen + clen { return Err("2mg/creator-offset-wrong".into()); }
+            if rlen == 0 && roff != 0 { return Err("2mg/creator-offset-wrong".into()); }
+            if fmt == 1 && blocks * 512 != dlen { return Err("2mg/blocks-field-disagrees-with-data-length".into()); }
+            Ok(())
+        }
+        "imd" => {
+            if b.len() < 30 || &b[0..4] != b"IMD " { return Err("imd/bad-signature".into()); }
+            let eof = match b[29..].iter().position(|x| *x == 0x1a) { Some(i) => 29 + i, None => return Err("imd/no-comment-terminator".into()) };
+            let mut p = eof + 1;
+            while p < b.len() {
+                if p + 5 > b.len() { return Err("imd/short-track-header".into()); }
+                let (head, n, shift) = (b[p + 2], b[p + 3] as usize, b[p + 4]);
+                if shift > 6 { return Err("imd/bad-sector-size-code".into()); }
+                p += 5 + n;
+                if head & 0x80 != 0 { p += n; }
+                if head & 0x40 != 0 { p += n; }
+                let size = 128usize << shift;
+                for _ in 0..n {
+                    if p >= b.len() { return Err("imd/short-track".into()); }
+                    match b[p] {
+                        0 => p += 1,
+                        1 | 3 | 5 | 7 => { if p + 1 + size > b.len() { return Err("imd/short-sector".into()); } if uniform(&b[p + 1..p + 1 + size]) { return Err("imd/uniform-sector-not-compressed".into()); } p += 1 + size; }
+                        2 | 4 | 6 | 8 => p += 2,
+                        _ => return Err("imd/bad-sector-code".into())
+                    }
+                }
+            }
+            if p != b.len() { return Err("imd/short-track".into()); }
+            Ok(())
+        }
+        _ => Ok(())
+    }
+}
+
+// ------------------------------------------------------------------------------------------------
+// the whole-property oracle for one image
+
+struct Verdict { ok: bool }
+
+/// `img` is an image a2kit created or loaded; `hints` = extension hints to reload with
+fn flush(out: &mut Out, buf: Vec<(bool, String, String, String)>, typ: &str, hazards: &[&'static str]) {
+    if hazards.is_empty() {
+        for (p, n, s, c) in buf { out.oracle(p, &n, &s, &c); }
+    } else {
+        let sig = format!("c09/{}/roundtrip-after:{}", typ, hazards[0]);
+        match buf.iter().find(|x| !x.0) {
+            Some((_, n, s, c)) => out.oracle(false, "roundtrip-after-hazard", &sig, &format!("{} first-symptom={} ({})", c, s, n)),
+            None => out.oracle(true, "roundtrip-after-hazard", &sig, "")
+        }
+    }
+}
+
+fn roundtrip_oracle(out: &mut Out, img: &mut Box<dyn DiskImage>, label: &str, typ: &str, check_kind: bool, hints: &[Option<&str>], case: &str, hazards: &[&'static str]) -> (Verdict, Vec<u8>) {
+    // a hazard class exercised by the generator gets its own signature so that a known defect does not hide other failures
+    let sig = |what: &str| format!("c09/{}/{}", label, what);
+    let mut ok = true;
+    // verdicts are buffered: a case that exercised a known hazard class reports ONE verdict under the
+    // signature of the hazard (so that the finding key does not depend on which symptom shows first)
+    let mut buf: Vec<(bool, String, String, String)> = Vec::new();
+    macro_rules! emit { ($pass:expr, $name:expr, $sig:expr, $case:expr) => { buf.push(($pass, $name.to_string(), $sig.to_string(), $case.to_string())) } }
+    let b1 = match guarded(|| img.to_bytes()) {
+        Ok(b) => b,
+        Err(p) => { emit!(false, "to_bytes-no-panic", &sig(&format!("to_bytes-panic:{}", site(&p))), &format!("{} panic={}", case, p)); flush(out, buf, typ, hazards); return (Verdict { ok: false }, Vec::new()); }
+    };
+    let (o1, _) = match guarded(|| observe(img)) {
+        Ok(o) => o,
+        Err(p) => { emit!(false, "observe-no-panic", &sig(&format!("observe-panic:{}", site(&p))), &format!("{} panic={}", case, p)); flush(out, buf, typ, hazards); return (Verdict { ok: false }, b1); }
+    };
+    // serialising is repeatable
+    match guarded(|| img.to_bytes()) {
+        Ok(b) => { let same = b == b1; ok &= same; emit!(same, "to_bytes-repeatable", &sig("to_bytes-not-repeatable"), case); }
+        Err(p) => { ok = false; emit!(false, "to_bytes-no-panic", &sig(&format!("to_bytes-panic:{}", site(&p))), &format!("{} panic={}", case, p)); }
+    }
+    // integrity fields
+    match guarded(|| integrity(typ, &b1)) {
+        Ok(Ok(())) => emit!(true, "integrity-fields", &sig("integrity"), case),
+        Ok(Err(e)) => { ok = false; emit!(false, "integrity-fields", &sig(&format!("integrity:{}", e)), &format!("{} what={}", case, e)); }
+        Err(p) => { ok = false; emit!(false, "integrity-fields", &sig("integrity:reference-parser-panic"), &format!("{} panic={}", case, p)); }
+    }
+    for hint in hints {
+        let hs = hint.unwrap_or("none");
+        let r = guarded(|| a2kit::create_img_from_bytestream(&b1, *hint).map_err(|e| e.to_string()));
+        let mut img2 = match r {
+            Ok(Ok(i)) => i,
+            Ok(Err(e)) => { ok = false; emit!(false, "reload", &sig("reload-refused"), &format!("{} hint={} err={}", case, hs, e)); continue; }
+            Err(p) => { ok = false; emit!(false, "reload", &sig(&format!("reload-panic:{}", site(&p))), &format!("{} hint={} panic={}", case, hs, p)); continue; }
+        };
+        let o2 = match guarded(|| observe(&mut img2)) {
+            Ok((o, _)) => o,
+            Err(p) => { ok = false; emit!(false, "reload", &sig(&format!("observe-reloaded-panic:{}", site(&p))), &format!("{} panic={}", case, p)); continue; }
+        };
+        let mut chk = |pass: bool, name: &str, what: &str, detail: String| {
+            if !pass { ok = false; }
+            buf.push((pass, name.to_string(), sig(what), format!("{} hint={} {}", case, hs, detail)));
+        };
+        chk(o2.typ == o1.typ, "same-type", "type-differs", format!("was={} now={}", o1.typ, o2.typ));
+        if o2.typ != o1.typ { continue; }
+        if check_kind { chk(o2.kind == o1.kind, "same-kind", "kind-differs", format!("was={} now={}", o1.kind, o2.kind)); }
+        chk(o2.cap == o1.cap, "same-capacity", "capacity-differs", format!("was={} now={}", o1.cap, o2.cap));
+        // a headerless dump whose kind is ambiguous keeps the linear sector order but not the cylinder/head split
+        let linear_only = typ == "img" && !check_kind;
+        chk(o2.tracks == o1.tracks && (linear_only || o2.heads == o1.heads), "same-track-count", "track-count-differs", format!("was={}x{} now={}x{}", o1.tracks, o1.heads, o2.tracks, o2.heads));
+        if !linear_only { chk(o2.geometry == o1.geometry, "same-geometry", "geometry-differs", format!("was={} now={}", &o1.geometry[..o1.geometry.len().min(120)], &o2.geometry[..o2.geometry.len().min(120)])); }
+        let first = o1.sectors.iter().zip(o2.sectors.iter()).find(|(a, b)| if linear_only { a.1 != b.1 } else { a != b });
+        chk(o1.sectors.len() == o2.sectors.len() && first.is_none(), "same-sectors", "sector-content-differs", format!("n={}/{} first={:?}", o1.sectors.len(), o2.sectors.len(), first));
+        chk(o2.meta == o1.meta, "same-metadata", "metadata-differs", format!("was={} now={}", o1.meta, o2.meta));
+        match guarded(|| img2.to_bytes()) {
+            Ok(b2) => chk(b2 == b1, "reserialize-identical", "reserialize-differs", format!("len={}/{} firstdiff={:?}", b1.len(), b2.len(), b1.iter().zip(b2.iter()).position(|(a, b)| a != b))),
+            Err(p) => chk(false, "reserialize-identical", &format!("reserialize-panic:{}", site(&p)), format!("panic={}", p)),
+        }
+    }
+    flush(out, buf, typ, hazards);
+    (Verdict { ok }, b1)
+}
+
+// ------------------------------------------------------------------------------------------------
+// model ties
+
+fn tie_woz(out: &mut Out, b1: &[u8], full_crc: bool) {
+    // chunk walk of the real `get_next_chunk`
+    out.q(&format!("c09 wozchunks {}", hx(&walk_skeleton(b1))), &real_walk(&walk_skeleton(b1)));
+    if full_crc { out.q(&format!("c09 crc32 {}", hx(&b1[12..])), &format!("{}", le32(&b1[8..12]))); }
+}
+
+/// the chunk walk only looks at ids and sizes; to keep requests small the payloads are cut out and the
+/// sizes patched accordingly (the real function is run on the same skeleton)
+fn walk_skeleton(b: &[u8]) -> Vec<u8> {
+    let mut out = b[..12.min(b.len())].to_vec();
+    let mut p = 12;
+    while p + 8 <= b.len() {
+        let size = le32(&b[p + 4..p + 8]);
+        if p + 8 + size > b.len() { out.extend_from_slice(&b[p..]); break; }
+        let keep = size.min(16);
+        out.extend_from_slice(&b[p..p + 4]);
+        out.extend_from_slice(&(keep as u32).to_le_bytes());
+        out.extend_from_slice(&b[p + 8..p + 8 + keep]);
+        p += 8 + size;
+    }
+    out
+}
+
+fn id_text(id: u32) -> String { id.to_le_bytes().iter().map(|b| if *b > 32 && *b < 127 { *b as char } else { '?' }).collect() }
+
+fn real_walk(buf: &[u8]) -> String {
+    let mut v = Vec::new();
+    let mut ptr = 12;
+    let mut fuel = buf.len() + 1;
+    while ptr > 0 && fuel > 0 {
+        fuel -= 1;
+        let r = guarded(|| img::woz::get_next_chunk(ptr, buf));
+        match r {
+            Ok((next, id, chunk)) => {
+                // what the model calls "found": a chunk header that fits in the buffer
+                if ptr + 8 <= buf.len() {
+                    let size = le32(&buf[ptr + 4..ptr + 8]);
+                    if ptr + 8 + size <= buf.len() {
+                        v.push(format!("{}@{}+{}{}", id_text(id), ptr, size, if chunk.is_some() { "" } else { "!" }));
+                    }
+                }
+                ptr = next;
+            }
+            Err(_) => return "panic".into()
+        }
+    }
+    if v.is_empty() { "-".into() } else { v.join(",") }
+}
+
+/// IMD: describe the image from what the public interface shows + the maps parsed from the bytes, ask the model
+/// for `toBytes` of that description
+fn tie_imd(out: &mut Out, img: &mut Box<dyn DiskImage>, b1: &[u8]) {
+    let eof = match b1[29..].iter().position(|x| *x == 0x1a) { Some(i) => 29 + i, None => return };
+    let mut req = format!("c09 imdimg {} {}", hx(&b1[..29]), hx(&b1[29..eof]));
+    let mut p = eof + 1;
+    let mut trks = Vec::new();
+    while p + 5 <= b1.len() {
+        let (mode, cyl, head, n, shift) = (b1[p], b1[p + 1], b1[p + 2], b1[p + 3] as usize, b1[p + 4]);
+        let smap = b1[p + 5..p + 5 + n].to_vec();
+        p += 5 + n;
+        let cmap = if head & 0x80 != 0 { let m = b1[p..p + n].to_vec(); p += n; m } else { vec![] };
+        let hmap = if head & 0x40 != 0 { let m = b1[p..p + n].to_vec(); p += n; m } else { vec![] };
+        let mut t = format!(" {} {} {} {} {} {} {} {}", mode, cyl, head, n, shift, hx(&smap), hx(&cmap), hx(&hmap));
+        for i in 0..n {
+            // content through the public interface, not from the bytes
+            match img.read_sector(cyl as usize, (head & 0x0f) as usize, smap[i] as usize) {
+                Ok(d) => if uniform(&d) { t += &format!(" U1:{:02X}", d[0]); } else { t += &format!(" R1:{}", hx(&d)); },
+                Err(_) => t += " N"
+            }
+            p += match b1[p] { 0 => 1, 2 | 4 | 6 | 8 => 2, _ => 1 + (128usize << shift) };
+        }
+        trks.push(t);
+    }
+    req += &format!(" {}", trks.len());
+    for t in trks { req += &t; }
+    out.q(&req, &format!("{} rt-ok", hx(b1)));
+}
+
+fn tie_td0(out: &mut Out, b1: &[u8], rng: &mut Rng, whole: bool) {
+    let x = match retrocompressor::td0::expand_slice(b1) { Ok(x) => x, Err(_) => return };
+    let t = match td_parse(&x) { Ok(t) => t, Err(_) => return };
+    // sector records: what `pack` made of the content (content via the reference decoder of the stored record)
+    let mut n = 0;
+    for trk in &t.tracks {
+        for s in &trk.secs {
+            if s.hdr[4] & 0x30 != 0 { continue; }
+            if let Some(d) = td_unpack_ref(s.hdr[3], &s.data) {
+                let interesting = s.data[2] == 0 || d[0] != 0;
+                if (interesting && n < 6) || rng.chance(1) {
+                    n += 1;
+                    out.q(&format!("c09 td0pack {} {}", s.hdr[3], hx(&d)), &hx(&s.data));
+                }
+            }
+        }
+    }
+    if whole {
+        let com = match &t.comment { Some((h, text)) => format!("{}:{}", hx(&h[4..10]), hx(text)), None => "none".into() };
+        let mut req = format!("c09 td0img {} {} {}", hx(&t.hdr[2..10]), com, t.tracks.len());
+        for trk in &t.tracks {
+            req += &format!(" {} {} {}", trk.hdr[0], trk.hdr[1], trk.hdr[2]);
+            for s in &trk.secs { req += &format!(" {} {} {} {} {} {} {}", s.hdr[0], s.hdr[1], s.hdr[2], s.hdr[3], s.hdr[4], 0, hx(&s.data)); }
+        }
+        // the LZHUF decoder may emit a few surplus bytes after the 7 trailer bytes: compare up to the trailer
+        let end = (x.len() - t.tail.len() + 8).min(x.len());
+        out.q(&req, &format!("{} rt-ok", hx(&x[..end])));
+    }
+}
+
+fn tie_2mg(out: &mut Out, b1: &[u8], rng: &mut Rng) {
+    // scramble the fields that `to_bytes` recomputes; the model must restore exactly what the real code wrote
+    let mut h = b1[..64].to_vec();
+    for i in (24..28).chain(32..48) { h[i] = rng.byte(); }
+    out.q(&format!("c09 mgfinal {} {} {}", hx(&h), le32(&b1[36..40]), le32(&b1[44..48])), &hx(&b1[..64]));
+}
+
+// ------------------------------------------------------------------------------------------------
+// stream A: created images
+
+fn case_created(ctx: &mut Ctx, idx: usize, cfg: &Cfg, rng: &mut Rng, heavy: bool) {
+    let out = &mut ctx.out;
+    let label = format!("{}/{}{}", cfg.typ, cfg.kind_name, cfg.wrap.map(|w| format!("+{}", w)).unwrap_or_default());
+    let vol = if rng.chance(50) { 254 } else { rng.range(1, 254) as u8 };
+    let mut img = match guarded(|| build(cfg, vol)) {
+        Ok(Ok(i)) => i,
+        Ok(Err(e)) => { out.oracle(false, "create", &format!("c09/{}/create-refused", label), &format!("A idx={} err={}", idx, e)); return; }
+        // `mkimage` accepts (IMD|TD0, 3.5in-ibm-2880) but the constructors panic on the 1000 kbps data rate:
+        // that pairing cannot be created at all, which is a matter for C10, not for the round trip
+        Err(p) => { out.count(&format!("create-panic(C10):{}:{}", label, site(&p))); return; }
+    };
+    let (_, geo) = geometry(&mut img);
+    let nw = if heavy { rng.range(0, 12) } else { rng.range(0, 4) };
+    let wdesc = random_writes(&mut img, cfg.typ, &geo, rng, nw, out);
+    let ne = rng.below(4);
+    let elog = random_edits(&mut img, cfg, rng, ne, out, "A", idx);
+    let case = format!("A idx={} cfg={} vol={} writes=[{}] edits=[{}]", idx, label, vol, wdesc.trim(), elog.desc.trim());
+    let hazards: Vec<&'static str> = elog.classes.iter().cloned().filter(|c| matches!(*c, "imd-comment-with-eof-char" | "td0-notes-with-newline" | "td0-stepping-without-comment-flag" | "woz2-meta-value-ending-in-cr" | "2mg-blocks-edit")).collect();
+    let mut hints: Vec<Option<&str>> = vec![Some(ext_of(cfg.typ))];
+    if self_identifying(cfg.typ) { hints.push(None); }
+    let (v, b1) = roundtrip_oracle(out, &mut img, &label, cfg.typ, records_kind(cfg), &hints, &case, &hazards);
+    out.count(&format!("cfg:{}", label));
+    let canon = format!("{}|{}|{}", label, wdesc, elog.desc);
+    out.case(canon.as_bytes(), nw + elog.classes.len() > 0);
+    out.sample(&case);
+    let _ = v;
+    if b1.len() < 64 { return; }
+    // model ties on the bytes the real code produced
+    match cfg.typ {
+        "woz1" | "woz2" => tie_woz(out, &b1, cfg.typ == "woz1" && idx % 8 == 6),
+        "imd" => if b1.len() < 120_000 || idx % 16 == 3 { let _ = guarded(|| tie_imd(out, &mut img, &b1)); },
+        "td0" => tie_td0(out, &b1, rng, b1.len() < 60_000),
+        "2mg" => tie_2mg(out, &b1, rng),
+        _ => {}
+    }
+}
+
+// ------------------------------------------------------------------------------------------------
+// stream B: pure codec ties
+
+fn td_record(rng: &mut Rng, shift: u8) -> Vec<u8> {
+    let size = 128usize << shift;
+    let mut body = Vec::new();
+    let enc = rng.below(4) as u8;
+    match enc {
+        0 => { body = { let n_ = if rng.chance(10) { size - 1 } else { size }; rng.bytes(n_) }; }
+        1 => { let mut left = size / 2; while left > 0 { let c = if rng.chance(50) { left } else { rng.range(1, left) }; let c = if rng.chance(5) { c + 1 } else { c }; body.extend_from_slice(&(c as u16).to_le_bytes()); body.push(rng.byte()); body.push(rng.byte()); left = left.saturating_sub(c); } }
+        2 => { let mut have = 0; while have < size {
+                if rng.chance(50) { let n = rng.range(1, 255.min(size - have)); body.push(0); body.push(n as u8); body.extend(rng.bytes(n)); have += n; }
+                else { let rc = rng.range(1, 4); let rep = rng.range(1, 255.min(((size - have) / (2 * rc)).max(1))); body.push(rc as u8); body.push(rep as u8); body.extend(rng.bytes(2 * rc)); have += 2 * rc * rep; }
+            } if rng.chance(10) { body.pop(); } }
+        _ => { body = { let n_ = rng.below(8); rng.bytes(n_) }; }
+    }
+    let mut rec = ((body.len() + 1) as u16).to_le_bytes().to_vec();
+    rec.push(enc);
+    rec.extend(body);
+    rec
+}
+
+/// a minimal normal-compression (`TD`) image with one track; sector `i` has id `i+1`
+fn td_image(shift: u8, recs: &[Vec<u8>]) -> Vec<u8> {
+    let mut b = vec![b'T', b'D', 0, 0, 0x15, 0, 1, 0, 0, 1];
+    let c = crc16_ref(&b);
+    b.extend_from_slice(&c.to_le_bytes());
+    let th = [recs.len() as u8, 0, 0];
+    b.extend_from_slice(&th);
+    b.push((crc16_ref(&th) & 0xff) as u8);
+    for (i, r) in recs.iter().enumerate() {
+        b.extend_from_slice(&[0, 0, (i + 1) as u8, shift, 0, 0]);
+        b.extend_from_slice(r);
+    }
+    b.push(0xff);
+    b
+}
+
+fn case_codec(ctx: &mut Ctx, idx: usize, rng: &mut Rng) {
+    let out = &mut ctx.out;
+    match idx % 5 {
+        0 => { // crc32 / crc16 of the public functions
+            let n = if rng.chance(10) { 0 } else { rng.range(1, 600) };
+            let buf = if rng.chance(20) { vec![rng.byte(); n] } else { rng.bytes(n) };
+            out.q(&format!("c09 crc32 {}", hx(&buf)), &format!("{}", img::woz::crc32(0, &buf)));
+            out.q(&format!("c09 crc16 {}", hx(&buf)), &format!("{}", img::td0::crc16(0, &buf)));
+            out.oracle(img::woz::crc32(0, &buf) == crc32_ref(&buf), "crc32-is-crc32", "c09/woz/crc32-function-wrong", &format!("B idx={} len={}", idx, n));
+            out.oracle(img::td0::crc16(0, &buf) == crc16_ref(&buf), "crc16-is-td0-crc", "c09/td0/crc16-function-wrong", &format!("B idx={} len={}", idx, n));
+            out.case(&buf, n > 0);
+        }
+        1 | 2 => { // TD0 sector records decoded by the real `Sector::unpack` (through from_bytes + read_sector)
+            let shift = rng.below(4) as u8;
+            let nrec = rng.range(1, 4);
+            let recs: Vec<Vec<u8>> = (0..nrec).map(|_| td_record(rng, shift)).collect();
+            let bytes = td_image(shift, &recs);
+            let r = guarded(|| img::td0::Td0::from_bytes(&bytes));
+            match r {
+                Ok(Ok(mut t)) => {
+                    for (i, rec) in recs.iter().enumerate() {
+                        let a = match guarded(|| t.read_sector(0, 0, i + 1)) { Ok(Ok(d)) => hx(&d), Ok(Err(_)) => "err".into(), Err(_) => "panic".into() };
+                        out.q(&format!("c09 td0unpack {} {}", shift, hx(rec)), &a);
+                        out.count(&format!("td0-record-enc{}:{}", rec[2], if a == "err" { "err" } else { "ok" }));
+                    }
+                }
+                Ok(Err(_)) => out.count("td0-handmade-refused"),
+                Err(_) => out.count("td0-handmade-panic(C12)"),
+            }
+            out.case(&bytes, true);
+        }
+        3 => { // chunk walks over shuffled / truncated / unknown chunks
+            let mut b = b"WOZ2\xff\n\r\n\0\0\0\0".to_vec();
+            let ids: [&[u8; 4]; 7] = [b"INFO", b"TMAP", b"TRKS", b"META", b"WRIT", b"FLUX", b"\0\0\0\0"];
+            for _ in 0..rng.range(0, 6) {
+                let id = *rng.pick(&ids);
+                let n = rng.below(20);
+                b.extend_from_slice(id);
+                let claimed = if rng.chance(12) { n + rng.range(1, 40) } else { n };
+                b.extend_from_slice(&(claimed as u32).to_le_bytes());
+                b.extend(rng.bytes(n));
+            }
+            if rng.chance(30) { let cut = rng.below(9); let l = b.len(); b.truncate(l.saturating_sub(cut).max(12)); }
+            out.q(&format!("c09 wozchunks {}", hx(&b)), &real_walk(&b));
+            out.case(&b, b.len() > 12);
+        }
+        _ => { // IMD compress/expand through a real image: one track of a hand-made IMD file
+            let shift = rng.below(3) as u8;
+            let size = 128usize << shift;
+            let n = rng.range(1, 5);
+            let mut b = b"IMD 1.18: 01/01/2000 00:00:00".to_vec();
+            b.extend_from_slice(b"c09\x1a");
+            b.extend_from_slice(&[5, 0, 0, n as u8, shift]);
+            for i in 0..n { b.push(i as u8 + 1); }
+            let mut stored = Vec::new();
+            for _ in 0..n {
+                let code = *rng.pick(&[0u8, 1, 1, 2, 2, 3, 4, 5, 6, 7, 8]);
+                stored.push(code);
+                match code { 0 => {}, 2 | 4 | 6 | 8 => stored.push(rng.byte()), _ => stored.extend(if rng.chance(30) { vec![rng.byte(); size] } else { rng.bytes(size) }) }
+            }
+            b.extend_from_slice(&stored);
+            // real: from_bytes expands, to_bytes compresses again
+            let r = guarded(|| img::imd::Imd::from_bytes(&b).map(|mut i| i.to_bytes()));
+            let hdr = 29 + 4 + 5 + n;
+            let a = match r { Ok(Ok(b2)) => hx(&b2[hdr..]), Ok(Err(_)) => "err".into(), Err(_) => "panic".into() };
+            // model: compress (expand stored)
+            out.q(&format!("c09 imdrecompress {} {} {}", shift, n, hx(&stored)), &a);
+            out.case(&b, true);
+        }
+    }
+}
+
+// ------------------------------------------------------------------------------------------------
+// stream C: loaded images (foreign byte streams a2kit accepts)
+
+fn case_loaded(ctx: &mut Ctx, idx: usize, rng: &mut Rng) {
+    let out = &mut ctx.out;
+    let (label, typ, bytes, ext): (&str, &str, Vec<u8>, &str) = match idx % 4 {
+        0 => { // IMD written by another tool: uniform sectors left uncompressed, deleted-data and error codes
+            let mut i = img::imd::Imd::create(names::OSBORNE1_SD_KIND);
+            let b = i.to_bytes();
+            let eof = b.iter().position(|x| *x == 0x1a).unwrap();
+            let mut o = b[..29].to_vec();
+            o.extend_from_slice(b"foreign tool\r\nline 2\x1a");
+            let mut p = eof + 1;
+            while p < b.len() {
+                let n = b[p + 3] as usize; let shift = b[p + 4]; let size = 128usize << shift;
+                o.extend_from_slice(&b[p..p + 5 + n]);
+                p += 5 + n;
+                for _ in 0..n {
+                    let (code, fill) = (b[p], b[p + 1]);
+                    p += 2; // created image: every sector is compressed (code 2)
+                    let _ = code;
+                    match rng.below(5) {
+                        0 => { o.push(*rng.pick(&[1u8, 3, 5, 7])); o.extend(vec![fill; size]); }      // uniform but stored expanded
+                        1 => { o.push(*rng.pick(&[2u8, 4, 6, 8])); o.push(rng.byte()); }
+                        2 => { o.push(*rng.pick(&[1u8, 3])); o.extend(rng.bytes(size)); }
+                        _ => { o.push(2); o.push(fill); }
+                    }
+                }
+            }
+            ("imd/loaded-foreign", "imd", o, "imd")
+        }
+        1 => { // TD0 without advanced compression, no comment, all three sector encodings
+            let shift = 1u8;
+            let mut recs = Vec::new();
+            while recs.len() < 5 { let r = td_record(rng, shift); if td_unpack_ref(shift, &r).is_some() { recs.push(r); } }
+            ("td0/loaded-normal-compression", "td0", td_image(shift, &recs), "td0")
+        }
+        2 => { // WOZ2 with META before WRIT-like extra chunks appended by another tool (creator order INFO,TMAP,TRKS kept)
+            let mut w = img::woz2::Woz2::create(254, names::A2_DOS33_KIND);
+            let mut b = w.to_bytes();
+            let writ = { let n_ = rng.range(1, 40); rng.bytes(n_) };
+            b.extend_from_slice(b"WRIT"); b.extend_from_slice(&(writ.len() as u32).to_le_bytes()); b.extend(writ);
+            let meta = b"title\tForeign\nlanguage\tEnglish\n".to_vec();
+            b.extend_from_slice(b"META"); b.extend_from_slice(&(meta.len() as u32).to_le_bytes()); b.extend(meta);
+            if rng.chance(50) { let x = { let n_ = rng.range(1, 30); rng.bytes(n_) }; b.extend_from_slice(b"XTRA"); b.extend_from_slice(&(x.len() as u32).to_le_bytes()); b.extend(x); }
+            let crc = crc32_ref(&b[12..]).to_le_bytes();
+            b[8..12].copy_from_slice(&crc);
+            ("woz2/loaded-extra-chunks", "woz2", b, "woz")
+        }
+        _ => { // 2MG from another creator: comment and creator stored in the other order, non-a2kit creator id
+            let data = rng.bytes(143360);
+            let comment = b"a comment".to_vec();
+            let creator = b"other creator data".to_vec();
+            let mut h = b"2IMGXGS!".to_vec();
+            h.extend_from_slice(&[64, 0, 1, 0]); h.extend_from_slice(&0u32.to_le_bytes()); h.extend_from_slice(&[254, 1, 0, 0]);
+            h.extend_from_slice(&280u32.to_le_bytes()); h.extend_from_slice(&64u32.to_le_bytes()); h.extend_from_slice(&(data.len() as u32).to_le_bytes());
+            let roff = 64 + data.len(); let coff = roff + creator.len();
+            h.extend_from_slice(&(coff as u32).to_le_bytes()); h.extend_from_slice(&(comment.len() as u32).to_le_bytes());
+            h.extend_from_slice(&(roff as u32).to_le_bytes()); h.extend_from_slice(&(creator.len() as u32).to_le_bytes());
+            h.extend_from_slice(&[0; 16]);
+            h.extend(data); h.extend(creator); h.extend(comment);
+            ("2mg/loaded-foreign-layout", "2mg", h, "2mg")
+        }
+    };
+    let r = guarded(|| a2kit::create_img_from_bytestream(&bytes, Some(ext)).map_err(|e| e.to_string()));
+    let mut img = match r {
+        Ok(Ok(i)) => i,
+        Ok(Err(e)) => { out.count(&format!("loaded-refused:{}", label)); out.oracle(false, "load-handmade", &format!("c09/{}/handmade-stream-refused", label), &format!("C idx={} err={}", idx, e)); return; }
+        Err(p) => { out.oracle(false, "load-handmade", &format!("c09/{}/handmade-stream-panic:{}", label, site(&p)), &format!("C idx={} panic={}", idx, p)); return; }
+    };
+    let case = format!("C idx={} cfg={} len={}", idx, label, bytes.len());
+    let (_v, _b) = roundtrip_oracle(out, &mut img, label, typ, true, &[Some(ext), None], &case, &[]);
+    out.count(&format!("cfg:{}", label));
+    out.case(&bytes, true);
+}
+
+// ------------------------------------------------------------------------------------------------
+// stream D: DESIGN §9 item 27
+
+fn case_item27(ctx: &mut Ctx, idx: usize, rng: &mut Rng) {
+    let out = &mut ctx.out;
+    // a WOZ2 whose META chunk (exactly one 512-byte block long) precedes TRKS and whose TRK entries point at
+    // the shifted blocks: every chunk is found by the walk, every track decodes, the image loads
+    let mut w = img::woz2::Woz2::create(254, names::A2_DOS33_KIND);
+    let b = w.to_bytes();
+    let mut meta = format!("title\tchunk order {}", rng.below(100)).into_bytes();
+    while meta.len() < 503 { meta.push(b'.'); }
+    meta.push(b'\n');
+    let mut o = b[..248].to_vec();
+    o.extend_from_slice(b"META"); o.extend_from_slice(&(meta.len() as u32).to_le_bytes()); o.extend(&meta);
+    o.extend_from_slice(&b[248..]);
+    for t in 0..160 {
+        let e = 248 + 512 + 8 + 8 * t;
+        let start = le16(&o[e..e + 2]);
+        if start > 0 { o[e..e + 2].copy_from_slice(&((start + 1) as u16).to_le_bytes()); }
+    }
+    let crc = crc32_ref(&o[12..]).to_le_bytes();
+    o[8..12].copy_from_slice(&crc);
+    let case = format!("D idx={} woz2 INFO,TMAP,META({}),TRKS", idx, meta.len());
+    match guarded(|| a2kit::create_img_from_bytestream(&o, Some("woz")).map_err(|e| e.to_string())) {
+        Ok(Ok(mut i)) => {
+            let before = guarded(|| observe(&mut i).0.sectors);
+            match guarded(|| i.to_bytes()) {
+                Ok(b1) => {
+                    out.oracle(true, "loaded-image-serialises", "c09/woz2/loaded-nonstandard-chunk-order/to_bytes-panic", &case);
+                    // and what was serialised must reload with the same sectors
+                    let after = guarded(|| a2kit::create_img_from_bytestream(&b1, Some("woz")).map(|mut j| observe(&mut j).0.sectors).map_err(|e| e.to_string()));
+                    let same = match (&before, &after) { (Ok(x), Ok(Ok(y))) => x == y, _ => false };
+                    out.oracle(same, "loaded-image-roundtrip", "c09/woz2/loaded-nonstandard-chunk-order/reload-differs", &case);
+                }
+                Err(p) => out.oracle(false, "loaded-image-serialises", "c09/woz2/loaded-nonstandard-chunk-order/to_bytes-panic", &format!("{} panic={}", case, p)),
+            }
+        }
+        Ok(Err(_)) => { out.count("item27-refused-at-load"); out.oracle(true, "loaded-image-serialises", "c09/woz2/loaded-nonstandard-chunk-order/to_bytes-panic", &case); }
+        Err(p) => out.oracle(false, "loaded-image-serialises", "c09/woz2/loaded-nonstandard-chunk-order/load-panic", &format!("{} panic={}", case, p)),
+    }
+    out.case(&o[..300], true);
+}
+
+// ------------------------------------------------------------------------------------------------
+// stream E: one directed case per hazard class, so that the quick tier meets each of them with every seed
+
+fn case_directed(ctx: &mut Ctx, idx: usize, rng: &mut Rng) {
+    let out = &mut ctx.out;
+    let cfgs = configs();
+    let find = |typ: &str, kind: &str| cfgs.iter().find(|c| c.typ == typ && c.kind_name == kind).unwrap().clone();
+    let p = |v: &[&str]| v.iter().map(|s| s.to_string()).collect::<Vec<String>>();
+    let (cfg, path, val, class): (Cfg, Vec<String>, String, &'static str) = match idx % 6 {
+        0 => (find("imd", "OSBORNE1_SD"), p(&["imd", "comment"]), "first\u{1a}second".to_string(), "imd-comment-with-eof-char"),
+        1 => (find("td0", "OSBORNE1_SD"), p(&["td0", "comment", "notes"]), "line 1\nline 2".to_string(), "td0-notes-with-newline"),
+        2 => (find("td0", "OSBORNE1_DD"), p(&["td0", "header", "stepping", "_raw"]), format!("{:02x}", rng.below(3)), "td0-stepping-without-comment-flag"),
+        3 => (find("woz2", "A2_DOS33"), p(&["woz2", "meta", "title"]), "Title\r".to_string(), "woz2-meta-value-ending-in-cr"),
+        4 => (find("2mg", "A2_400"), p(&["2mg", "header", "blocks"]), random_hex(rng, 4), "2mg-blocks-edit"),
+        _ => (find("2mg", "A2_DOS33"), p(&["2mg", "header", "blocks"]), random_hex(rng, 4), "2mg-blocks-edit"),
+    };
+    let label = format!("{}/{}", cfg.typ, cfg.kind_name);
+    let mut img = match guarded(|| build(&cfg, 254)) { Ok(Ok(i)) => i, _ => return };
+    let (_, geo) = geometry(&mut img);
+    let wdesc = random_writes(&mut img, cfg.typ, &geo, rng, 3, out);
+    let jv = json::JsonValue::String(val.clone());
+    let sig = format!("c09/{}/roundtrip-after:{}", cfg.typ, class);
+    let case = format!("E idx={} cfg={} writes=[{}] put /{}={:?}", idx, label, wdesc.trim(), path.join("/"), val);
+    match guarded(|| img.put_metadata(&path, &jv).map_err(|e| e.to_string())) {
+        Err(pn) => out.oracle(false, "roundtrip-after-hazard", &sig, &format!("{} put_metadata panic={}", case, pn)),
+        Ok(Err(_)) => {
+            // refusing the value is one of the two acceptable answers; the image must still round-trip
+            out.count(&format!("directed-refused:{}", class));
+            roundtrip_oracle(out, &mut img, &label, cfg.typ, false, &[Some(ext_of(cfg.typ)), None], &case, &[class]);
+        }
+        Ok(Ok(())) => {
+            out.count(&format!("directed-accepted:{}", class));
+            roundtrip_oracle(out, &mut img, &label, cfg.typ, false, &[Some(ext_of(cfg.typ)), None], &case, &[class]);
+        }
+    }
+    out.case(case.as_bytes(), true);
+}
+
+// ------------------------------------------------------------------------------------------------
+
+pub fn run(ctx: &mut Ctx) {
+    let mut rng = Rng::new(ctx.seed);
+    let cfgs = configs();
+    let thorough = ctx.tier_thorough;
+    // stream A: quick = every configuration once (light), thorough = 6 rounds, heavier write load
+    let rounds = ctx.n(1, 6);
+    for round in 0..rounds {
+        for (ci, cfg) in cfgs.iter().enumerate() {
+            let idx = round * cfgs.len() + ci;
+            let mut r = rng.fork(idx as u64);
+            if !ctx.out.wants(idx) { continue; }
+            // the 32 MB configurations are exercised in every round but only lightly
+            case_created(ctx, idx, cfg, &mut r, thorough || cfg.kind_name != "A2_HD_MAX");
+        }
+    }
+    let nb = ctx.n(400, 6000);
+    for i in 0..nb {
+        let idx = 10000 + i;
+        let mut r = rng.fork(idx as u64);
+        if !ctx.out.wants(idx) { continue; }
+        case_codec(ctx, idx, &mut r);
+    }
+    let nc = ctx.n(8, 80);
+    for i in 0..nc {
+        let idx = 20000 + i;
+        let mut r = rng.fork(idx as u64);
+        if !ctx.out.wants(idx) { continue; }
+        case_loaded(ctx, idx, &mut r);
+    }
+    for i in 0..ctx.n(6, 60) {
+        let idx = 40000 + i;
+        let mut r = rng.fork(idx as u64);
+        if !ctx.out.wants(idx) { continue; }
+        case_directed(ctx, idx, &mut r);
+    }
+    for i in 0..ctx.n(1, 3) {
+        let idx = 30000 + i;
+        let mut r = rng.fork(idx as u64);
+        if !ctx.out.wants(idx) { continue; }
+        case_item27(ctx, idx, &mut r);
+    }
+}
